@@ -278,12 +278,17 @@ func runScenario(tw *tracefmt.Writer, sc scen, id int, rng *rand.Rand, st *stats
 	}
 	var ws []written
 	var werrs []bool
+	unflushed := false
 	for i, p := range seq {
 		off := out.buf.Len()
 		_, err := w.Write(p)
-		if err == nil {
+		// every other late-switch connection leaves the first payload unflushed in the
+		// writer's buffer while the settings change (write, switch, write more, flush)
+		noFlush := sc.Late && i == 0 && id%2 == 0 && len(seq) > 1
+		if err == nil && !noFlush {
 			err = w.Flush()
 		}
+		unflushed = unflushed || noFlush
 		ws = append(ws, written{p: p, off: off, to: out.buf.Len(), thr: curThr, enc: curEnc})
 		werrs = append(werrs, err != nil)
 		if sc.Late && i == 0 {
@@ -303,6 +308,21 @@ func runScenario(tw *tracefmt.Writer, sc scen, id int, rng *rand.Rand, st *stats
 		}
 	}
 	wire := append([]byte{}, out.buf.Bytes()...)
+	if unflushed {
+		// the first frame reached the wire together with the second write: it is plain (written
+		// before the switch), its end is where its own length prefix says, the rest follows it
+		end := ws[0].off
+		if L, np, ok := getVarInt(wire[ws[0].off:]); ok && L >= 0 {
+			end = min(ws[0].off+np+L, len(wire))
+		}
+		ws[0].to, ws[1].off = end, end
+		if ws[1].to < end {
+			ws[1].to = end
+		}
+		if encStart >= 0 {
+			encStart = end
+		}
+	}
 	plain := wire
 	if encStart >= 0 {
 		plain = append(append([]byte{}, wire[:encStart]...), cfb8Decrypt(secret, wire[encStart:])...)
